@@ -10,6 +10,12 @@ CHECKS = {
                      "parser and compared with the reference post-order, plus value-level comparison in the VM",
                 note="trusted: registry dump of the built tree as source of precedence, the 60-line reference printer/post-order in vf/ref/expr.py",
                 technique="bounded exhaustive enumeration of expression trees against a reference post-order (small-scope model checking of the parser)"),
+    "C02": dict(level="exploration", ref="3/C02",
+                text="every nesting chain of 52 control-structure templates (each construct in the executed block of each other) to depth 2 "
+                     "(quick) / 3 (thorough) executed by the real VM and compared statement-by-statement and value-by-value with a "
+                     "reference interpreter; failing chains are reduced to the smallest failing sub-chain for the signature",
+                note="trusted: the 300-line reference interpreter vf/ref/sqf_interp.py; documented exclusions listed as assumptions in the evidence",
+                technique="bounded exhaustive enumeration of programs (small-scope) with a reference interpreter as oracle"),
 }
 
 PENDING_REASON = "check not built yet in this round (planned, see DESIGN.md section 3)"
